@@ -1,6 +1,7 @@
 (* Properties/C12.v — Only the matching response is accepted over UDP. *)
 From RsdnsModel Require Import Base Cursor Names Labels Header Tracker RData Reader Client.
-From RsdnsModel.Proofs Require Import ClientProofs.
+From RsdnsModel.Spec Require Import NameText.
+From RsdnsModel.Proofs Require Import NameOrder ClientProofs.
 Open Scope N_scope.
 
 (* [std] selects the leaves translated from the blocking client or from the async template.
@@ -34,3 +35,13 @@ Theorem C12_nothing_accepted : forall std id qname qtype qclass ds,
   udp_receive std id qname qtype qclass ds = Ok None ->
   Forall (fun x => accept_datagram std id qname qtype qclass x = Ok None) ds.
 Proof. exact udp_receive_none. Qed.
+
+(* in terms of text: the single question of an accepted datagram has the asked type and class and
+   a valid name whose ASCII-case-folded text is the case-folded canonical spelling of the asked
+   name (the root dot is optional in what the caller passed) *)
+Theorem C12_accepted_question_is_asked : forall std id qname qtype qclass d fl,
+  accept_datagram std id qname qtype qclass d = Ok (Some fl) ->
+  exists r1 hd r2 n, rd_header d (mkReader (c_new d) tr_default false) = (r1, Ok (OHeader hd)) /\
+    rd_question d true false r1 = (r2, Ok (OQuestion n qtype qclass)) /\
+    valid_text n = true /\ fold_case n = fold_case (canon_text qname).
+Proof. exact accept_name_is_asked. Qed.
